@@ -40,6 +40,7 @@ struct Args {
     std::uint64_t seed = 1; long from = 0, count = 1, stride = 1; double budget = 1e9;
     std::set<std::string> known;
     int shrink_budget = 300;
+    long pool = 0;
 };
 
 const Violation* first_unknown(const RunResult& r, const std::set<std::string>& known) {
@@ -104,6 +105,7 @@ int worker_main(int argc, char** argv, Scenario& sc) {
         else if (o == "--scratch") a.scratch = val();
         else if (o == "--replays") a.replays = val();
         else if (o == "--shrink-budget") a.shrink_budget = std::atoi(val().c_str());
+        else if (o == "--pool") a.pool = std::atol(val().c_str());
         else if (o == "--known") { std::string v = val(); size_t p = 0; while (p <= v.size()) { size_t q = v.find(',', p); if (q == std::string::npos) q = v.size(); if (q > p) a.known.insert(v.substr(p, q - p)); p = q + 1; } }
         else if (o == "--aslr") {}
         else if (a.file.empty()) a.file = o;
@@ -168,10 +170,13 @@ int worker_main(int argc, char** argv, Scenario& sc) {
     for (long k = 0; k < a.count; ++k) {
         if (clk::real_now() - t_start > a.budget) break;
         long run = a.from + k * a.stride;
-        std::uint64_t rseed = mix64(a.seed ^ mix64(static_cast<std::uint64_t>(run) + 0x5eedULL));
+        // --pool P: the plans come from a fixed pool of P plan seeds (index = run mod P); the run index stays the logical one
+        const long pidx = a.pool > 0 ? run % a.pool : run;
+        std::uint64_t rseed = mix64(a.seed ^ mix64(static_cast<std::uint64_t>(pidx) + 0x5eedULL));
         Rng rng(rseed);
-        Json plan = sc.generate(rng, a.tier, static_cast<std::uint64_t>(run));
+        Json plan = sc.generate(rng, a.tier, static_cast<std::uint64_t>(pidx));
         plan["run"] = run;
+        if (a.pool > 0) plan["pool_index"] = pidx;
         plan["seed"] = hex64(rseed);
         plan["property"] = sc.id();
         fs::spit(g_inflight, plan.dump(1));
